@@ -360,9 +360,10 @@ class SecopClient(ProxyClient):
             if self.io:
                 return
             self._shutdown.clear()
+            # a disconnect might still be in progress: do not drop waiting requests silently
+            self._abort_requests()
             self.txq = queue.Queue(30)
             self.pending = queue.Queue(30)
-            self.active_requests.clear()
             self.cleanup.clear()
             if self.online:
                 self._set_state(True, 'reconnecting')
@@ -621,7 +622,10 @@ class SecopClient(ProxyClient):
         if io:
             io.disconnect()
         self.io = None
-        # abort pending requests early
+        self._abort_requests()
+
+    def _abort_requests(self):
+        """release all callers waiting for a reply"""
         with self._request_lock:
             try:  # avoid race condition
                 while self.active_requests:
